@@ -18,8 +18,8 @@ SPAN_RS = "prqlc/prqlc-parser/src/span.rs"
 EXPR_RS = "prqlc/prqlc-parser/src/parser/expr.rs"
 PRQLC_PARSER = "prqlc/prqlc/src/parser.rs"
 
-LABELS = ["SU3a", "SU3b", "SU3c", "SU3d", "SU1a", "SU1b", "SU1c", "SU2m", "SU2o", "SU2", "IS0", "IS1", "IS2", "PS1"]
-FUNCTIONS = ["convert_lexer_error", "compose_location", "map_span_slice", "span_add", "interp_base", "lexed_input"]
+LABELS = ["SU3a", "SU3b", "SU3c", "SU3d", "SU1a", "SU1b", "SU1c", "SU2m", "SU2o", "SU2", "IS0", "IS1", "IS2", "PS1", "IE1"]
+FUNCTIONS = ["convert_lexer_error", "compose_location", "map_span_slice", "span_add", "interp_base", "lexed_input", "interp_error_span"]
 RLIMIT = 60
 
 ASSUMED = [
@@ -37,6 +37,8 @@ ASSUMED = [
              "Vec::get", "keys": ["fn tok_get", "fn vec_last", "struct SimpleSpan", "fn start", "fn end", "fn usize_saturating_sub"]},
     {"what": "String::len of the content of an interpolation token is the uninterpreted content_len(), at most the number of source characters between the quotes (escape "
              "sequences shrink the content)", "keys": ["fn string_byte_len", "spec fn content_len"]},
+    {"what": "chumsky's Rich error inside a string: `e.span()` is the uninterpreted range span_spec() of offsets into the string content (start <= end <= length: chumsky's contract)",
+     "keys": ["struct ErrSpan", "struct RichErr", "fn span_spec", "fn span"]},
     {"what": "prqlc_parser::lexer::lex_source_recovery is external: lexed_text() / lexed_id() of its result are the text and the source id it was given",
      "keys": ["fn lex_source_recovery", "spec fn lexed_text", "spec fn lexed_id", "struct LexOut"]},
     common_std.STR_PREDS_ASSUMPTION,
@@ -271,6 +273,19 @@ proof fn parser_span_fits_characters(source: Seq<char>, off: nat)
                "{\n    " + ip.text + "\n}\n")
     interp_shim = ("pub uninterp spec fn content_len(s: String) -> nat;\n"
                    "#[verifier::external_body] pub fn string_byte_len(s: &String) -> (r: usize) ensures r == content_len(*s), { unimplemented!() }\n")
+    # ---- s- / f-strings: the span of an error inside the string
+    ie = X.slice("prqlc/prqlc-parser/src/parser/interpolation.rs", "parse", "let span = Span {", "};", name="interp_error_span")
+    ie.rewrite_re("R1", r"//[^\n]*\n", "\n", count=None, why="comments")
+    ie.text = ("pub fn interp_error_span(e: &RichErr, span_base: Span) -> (span: Span)\n"
+               "    requires span_base.start + e.span_spec().end <= usize::MAX, e.span_spec().start <= e.span_spec().end,\n"
+               "    ensures\n"
+               "        // C13: an error inside the string is located where the interpolation parser found it, counted from the base (IS0-2) - for EVERY error, the end of the string included\n"
+               "        span.start == span_base.start + e.span_spec().start && span.end == span_base.start + e.span_spec().end && span.source_id == span_base.source_id, // @IE1\n"
+               "{\n    " + ie.text + "\n    span\n}\n")
+    ie.rewrites.append({"rule": "slice", "what": "the statement `let span = Span { .. };` of the error closure of interpolation::parse wrapped as fn interp_error_span(e, span_base) -> span"})
+    ie_shim = ("pub struct ErrSpan { pub start: usize, pub end: usize }\n#[verifier::external_body] pub struct RichErr { _p: u8 }\n"
+               "impl RichErr { pub uninterp spec fn span_spec(&self) -> ErrSpan;\n"
+               "    #[verifier::external_body] pub fn span(&self) -> (r: ErrSpan) ensures r == self.span_spec(), { unimplemented!() } }\n")
     # ---- prqlc::parser::parse_source: the text that is lexed
     ps = X.fn(PRQLC_PARSER, "parse_source")
     mp = re.search(r"^(.*?)let \(tokens, mut errors\) = (prqlc_parser::lexer::lex_source_recovery\([^;]*\));", ps.text.split("{", 1)[1], re.S)
@@ -288,7 +303,7 @@ proof fn parser_span_fits_characters(source: Seq<char>, off: nat)
                "{\n    " + ps.text + "\n}\n")
     lex_shim = ("#[verifier::external_body] pub struct LexOut { _p: u8 }\npub uninterp spec fn lexed_text(o: LexOut) -> Seq<char>;\npub uninterp spec fn lexed_id(o: LexOut) -> u16;\n"
                 "#[verifier::external_body] pub fn lex_source_recovery(source: &str, source_id: u16) -> (r: LexOut) ensures lexed_text(r) == source@, lexed_id(r) == source_id, { unimplemented!() }\n")
-    body = cle.text + "\n" + LOC_SHIM + cl_impl + TOK_SHIM + ms.text + su2 + interp_shim + sa_.text + "\n" + ip.text + lex_shim + ps.text
+    body = cle.text + "\n" + LOC_SHIM + cl_impl + TOK_SHIM + ms.text + su2 + interp_shim + sa_.text + "\n" + ip.text + ie_shim + ie.text + lex_shim + ps.text
     return PRELUDE + body + "\n} // verus!\nfn main() {}\n"
 
 
